@@ -6,6 +6,7 @@ C13 — model of the features interface.
 Transcribes
   pyatv/core/facade.py:258-268  FacadeFeatures.add_mapping (first protocol listing the feature,
                                 replaced by a later one of higher DEFAULT_PRIORITIES rank)
+  pyatv/interface.py:1078-1103  Features.all_features / in_state, inherited by FacadeFeatures
   pyatv/core/facade.py:271-282  FacadeFeatures.get_feature (PushUpdates special case; mapped
                                 protocol's answer; else Unsupported)
   pyatv/core/facade.py:700-733  connect(): add_mapping is called per connected protocol in
@@ -105,6 +106,16 @@ def facadeFeature (S : PSet) (env : Env) (f : Feature) : FState :=
   else match featureMap S f with
     | some p => protoFeature p (env p f).1 (env p f).2 f
     | none => .unsupported
+
+/-- `Features.all_features(include_unsupported)` as FacadeFeatures inherits it
+    (pyatv/interface.py:1078-1085): every feature name is asked through get_feature; entries in
+    state Unsupported are left out unless asked for -/
+def allFeatures (S : PSet) (env : Env) (includeUnsupported : Bool) : List (Feature × FState) :=
+  (Feature.all.map fun f => (f, facadeFeature S env f)).filter fun e => e.2 != .unsupported || includeUnsupported
+
+/-- `Features.in_state(states, *names)` (pyatv/interface.py:1087-1103) -/
+def inState (S : PSet) (env : Env) (states : List FState) (names : List Feature) : Bool :=
+  names.all fun f => states.contains (facadeFeature S env f)
 
 /-- some member the feature stands for is routed to an implementation -/
 def backed (S : PSet) (t : Iface → List Proto) (f : Feature) : Bool :=
